@@ -2,7 +2,7 @@
 from mirlib import *
 from ranges import *
 from shape import *
-import r_decclass
+import r_decclass, r_inv
 
 MANIFEST = {
     'category': 'other',
@@ -18,7 +18,8 @@ MANIFEST = {
             '8F after F4, error for 80-C1 and F5-FF) equal the Standard\'s table; (D5) the ISO-2022-JP decoder\'s per-state byte classes (escape '
             'introducers, error sets {0E,0F,>7F}, Roman 5C/7E folding, katakana 21-5F, lead/trail 21-7E, Malformed(1,1)/(3,3) in the escape '
             'states) equal the Standard\'s; (D6) surrogate classification in the UTF-16 decoder uses exactly '
-            'the D800-DBFF / DC00-DFFF partitions. Values produced by index look-ups and pointer arithmetic, trail-byte acceptance (table '
+            'the D800-DBFF / DC00-DFFF partitions; (R-INV) the UTF-8 decoder\'s state invariant bytes_needed == 0 ==> boundaries 80/BF, bytes_seen 0, '
+            'code_point 0 is inductive over every non-terminal path of both bodies (no dropped reset). Values produced by index look-ups and pointer arithmetic, trail-byte acceptance (table '
             'contents) and whole-stream equality with the Standard are numerical and not decided.',
     'note': 'Trusted: rustc MIR, mirx, rule library, the Standard\'s decoder byte ranges transcribed in rules/p_c01.py; the ASCII fast path '
             'delivers only bytes >= 0x80 as `non_ascii` (kernel contract).',
@@ -284,16 +285,17 @@ def d6(rep, f, c):
 ISO_EXPECT = {
     # Encoding Standard §12.2.1 ISO-2022-JP decoder, per state
     'Ascii': {('to', 'EscapeStart'): I(0x1B), ('malformed', (1, 0), 'consumed'): I(0x0E, 0x0F, (0x80, 0xFF)),
-              ('write_ascii', 'b'): I((0, 0x7F)) - I(0x0E, 0x0F, 0x1B)},
+              ('write_ascii', 'b'): I((0, 0x7F)) - I(0x0E, 0x0F, 0x1B), ('set', 'output_flag', 0): BYTE - I(0x1B)},
     'Roman': {('to', 'EscapeStart'): I(0x1B), ('malformed', (1, 0), 'consumed'): I(0x0E, 0x0F, (0x80, 0xFF)),
               ('write_mid_bmp', 0xA5): I(0x5C), ('write_upper_bmp', 0x203E): I(0x7E),
-              ('write_ascii', 'b'): I((0, 0x7F)) - I(0x0E, 0x0F, 0x1B, 0x5C, 0x7E)},
+              ('write_ascii', 'b'): I((0, 0x7F)) - I(0x0E, 0x0F, 0x1B, 0x5C, 0x7E), ('set', 'output_flag', 0): BYTE - I(0x1B)},
     'Katakana': {('to', 'EscapeStart'): I(0x1B), ('write_upper_bmp', 'expr'): I((0x21, 0x5F)),
-                 ('malformed', (1, 0), 'consumed'): BYTE - I((0x21, 0x5F), 0x1B)},
+                 ('malformed', (1, 0), 'consumed'): BYTE - I((0x21, 0x5F), 0x1B), ('set', 'output_flag', 0): BYTE - I(0x1B)},
     'LeadByte': {('to', 'EscapeStart'): I(0x1B), ('to', 'TrailByte'): I((0x21, 0x7E)), ('store', 'lead', 'b'): I((0x21, 0x7E)),
-                 ('malformed', (1, 0), 'consumed'): BYTE - I((0x21, 0x7E), 0x1B)},
+                 ('malformed', (1, 0), 'consumed'): BYTE - I((0x21, 0x7E), 0x1B), ('set', 'output_flag', 0): BYTE - I(0x1B)},
     'TrailByte': {('to', 'EscapeStart'): I(0x1B), ('malformed', (1, 1), 'consumed'): I(0x1B), ('malformed', (2, 0), 'consumed'): BYTE - I(0x1B)},
-    'EscapeStart': {('to', 'Escape'): I(0x24, 0x28), ('store', 'lead', 'b'): I(0x24, 0x28), ('malformed', (1, 0), 'unread'): BYTE - I(0x24, 0x28)},
+    'EscapeStart': {('to', 'Escape'): I(0x24, 0x28), ('store', 'lead', 'b'): I(0x24, 0x28), ('malformed', (1, 0), 'unread'): BYTE - I(0x24, 0x28),
+                    ('set', 'output_flag', 0): BYTE - I(0x24, 0x28), ('to', 'self.output_state'): BYTE - I(0x24, 0x28)},
 }
 
 
@@ -316,7 +318,7 @@ def d5(rep, f, c):
                 got = arm.get(k, ISet())
                 rep.ob('C01-D5', '%s:%s:%s' % (fn, st, k), got == want, 'ISO-2022-JP decoder, state %s, %s: implementation %r, Standard %r' % (st, k, got, want), site, {'bytes': repr(got)}, c)
             if st in ('Ascii', 'Roman', 'Katakana', 'LeadByte', 'EscapeStart'):
-                extra = {k: v for k, v in arm.items() if k not in exp and k[0] in ('malformed', 'to') or (k not in exp and str(k[0]).startswith('write'))}
+                extra = {k: v for k, v in arm.items() if k not in exp and k[0] in ('malformed', 'to', 'set') or (k not in exp and str(k[0]).startswith('write'))}
                 rep.ob('C01-D5.extra', '%s:%s' % (fn, st), not extra, 'outcomes not in the Standard for state %s: %r' % (st, {str(k): repr(v) for k, v in extra.items()}), site, None, c)
         tb = cl.get('TrailByte', {})
         wr = ISet()
@@ -336,4 +338,5 @@ def run(rep, facts, tier):
         d4(rep, f, c)
         d5(rep, f, c)
         d6(rep, f, c)
+        r_inv.run(rep, f, c, 'R-INV')
     return ('other', MANIFEST['text'], [])
